@@ -185,3 +185,589 @@ class ResolverTask:
 
 def resolver_tasks(root, timeout_ms=20000, which=("resolve_fragment",)):
     return [ResolverTask(root, w, timeout_ms) for w in which]
+
+
+# =====================================================================================================
+# resolve / resolve_from_url / resolve_remote / push_scope / __init__   (C02, C15, C07 (c))
+
+from pyvc.interp import lift, Raised, branch, add_lemma, EXC_PARENTS      # noqa: E402
+from contracts.tasks_core import urljoin_f      # noqa: E402
+
+EXC_PARENTS.setdefault("FetchError", "Exception")       # whatever a handler / requests / urlopen raises
+
+defrag_url = z3.Function("urldefrag_url", smt.S, smt.S)       # urldefrag(u)[0]
+defrag_frag = z3.Function("urldefrag_fragment", smt.S, smt.S)  # urldefrag(u)[1]
+normalize = z3.Function("uri_normalize", smt.S, smt.S)         # URIDict.normalize
+scheme_of = z3.Function("url_scheme", smt.S, smt.S)            # urlsplit(u).scheme
+store0_has = z3.Function("store0_has", smt.S, smt.B)           # store at entry, by normalised key
+store0_doc = z3.Function("store0_doc", smt.S, V)
+handler_has = z3.Function("handlers_has", smt.S, smt.B)        # scheme in self.handlers
+fetched = z3.Function("fetched", smt.S, V)                     # the document a retrieval of uri yields (deterministic environment)
+
+
+class AbsStore:
+    pass
+
+
+class AbsHandlers:
+    pass
+
+
+class AbsHandler:
+    def __init__(self, scheme):
+        self.scheme = scheme
+
+
+class AbsCache:
+    def __init__(self, which):
+        self.which = which
+
+
+def store_lookup(st, key_norm):
+    """(has, doc) terms for the current store: writes made on this path shadow the entry state"""
+    has, doc = store0_has(key_norm), store0_doc(key_norm)
+    for k, v in st.ghost.get("store_writes", ()):
+        has = z3.Or(normalize(k) == key_norm, has)
+        doc = z3.If(normalize(k) == key_norm, v, doc)
+    return has, doc
+
+
+def resolver_hooks(ctx, this, cache_remote, requests_present):
+    def sstr(x):
+        if isinstance(x, SStr):
+            return x.t
+        if isinstance(x, SV):
+            return sval(x.t)
+        raise OutOfSubset("string expected, got %r" % (x,))
+
+    def fetch(I, st, uri, via):
+        s_ok, s_bad = st.fork(), st.fork()
+        for s in (s_ok, s_bad):
+            s.ghost["fetches"] = s.ghost.get("fetches", ()) + ((via, uri),)
+        add_lemma(s_ok, smt.isjson(fetched(sstr(uri))))
+        return [(s_ok, SV(fetched(sstr(uri)))), (s_bad, Raised(ExcVal("FetchError", {}, origin="fetch via %s" % via)))]
+
+    def getattr_hook(I, st, obj, attr):
+        if isinstance(obj, ObjVal) and obj.cls == "RefResolver":
+            if attr == "store":
+                return [(st, AbsStore())]
+            if attr == "handlers":
+                return [(st, AbsHandlers())]
+            if attr == "cache_remote":
+                return [(st, lift(cache_remote)) if cache_remote is not None else (st, SV(z3.Const("cache_remote", V)))]
+            if attr == "_urljoin_cache":
+                return [(st, AbsCache("urljoin"))]
+            if attr == "_remote_cache":
+                return [(st, AbsCache("remote"))]
+            if attr == "_scopes_stack":
+                return [(st, AbsStack())]
+            if attr in ("resolution_scope", "base_uri"):
+                key = "validators:RefResolver.%s" % attr
+                if key in I.repo.units and not I.ctx.config.get("props_by_contract"):
+                    return I.call_func(st, FuncRef(key), [obj], {}, None)
+                return [(st, SStr(st.ghost["scope"]))]
+        if isinstance(obj, AbsSplit) and attr == "scheme":
+            return [(st, SStr(scheme_of(obj.u)))]
+        if isinstance(obj, (AbsStore, AbsHandlers, AbsStack, Opaque)):
+            return [(st, BoundMethod(obj, attr))]
+        return None
+
+    def subscript_hook(I, st, obj, key):
+        if isinstance(obj, AbsStore):
+            kn = normalize(sstr(key))
+            has, doc = store_lookup(st, kn)
+            s1 = st.fork()
+            s1.ghost["store_reads"] = s1.ghost.get("store_reads", ()) + (kn,)
+            return branch(I.ctx, s1, [(has, SV(doc)), (z3.Not(has), Raised(ExcVal("KeyError", {}, origin="store[]")))])
+        if isinstance(obj, AbsHandlers):
+            return [(st, AbsHandler(sstr(key)))]
+        if isinstance(obj, AbsStack):
+            if isinstance(key, SV) and key.known and key.conc == -1:
+                return [(st, SStr(st.ghost["scope"]))]
+        return None
+
+    def setitem_hook(I, st, obj, k, v):
+        if isinstance(obj, AbsStore):
+            s = st.fork()
+            s.ghost["store_writes"] = s.ghost.get("store_writes", ()) + ((sstr(k), v.t),)
+            return [(s, ("next", None))]
+        return None
+
+    def in_hook(I, st, x, c):
+        if isinstance(c, AbsHandlers):
+            return [(st, SB(handler_has(sstr(x))))]
+        return None
+
+    def call_hook(I, st, f, a, k, node):
+        if isinstance(f, AbsHandler):
+            return fetch(I, st, a[0], "handler")
+        if isinstance(f, AbsCache) and f.which == "urljoin":
+            # functools.lru_cache(urljoin) or any cache satisfying the cache contract: the value of urljoin
+            return [(st, SStr(urljoin_f(sstr(a[0]), sstr(a[1]))))]
+        if isinstance(f, AbsCache) and f.which == "remote":
+            # any cache of resolve_from_url: either a remembered normal result or a call now
+            key = "validators:RefResolver.resolve_from_url"
+            c = I.ctx.contracts.get(key)
+            if c is not None:
+                return c.apply(I, st, [this, a[0]], {}, None)
+            return I.call_func(st, FuncRef(key), [this, a[0]], {}, node)
+        return None
+
+    def builtin_hook(I, st, name, a, k, node):
+        if name == "urllib.parse.urldefrag":
+            u = sstr(a[0])
+            return [(st, PyTuple([SStr(defrag_url(u)), SStr(defrag_frag(u))]))]
+        if name == "urllib.parse.urlsplit":
+            return [(st, AbsSplit(sstr(a[0])))]
+        if name == "urllib.parse.urljoin":
+            return [(st, SStr(urljoin_f(sstr(a[0]), sstr(a[1]))))]
+        if name == "urllib.request.urlopen":
+            return [(st, Opaque("urlopen", [a[0]]))]
+        if name == "json.loads":
+            return [(st, a[0])]
+        return None
+
+    def method_hook(I, st, obj, name, a, k, node):
+        if isinstance(obj, Opaque) and obj.tag == "requests" and name == "get":
+            return [(st, Opaque("response", [a[0]]))]
+        if isinstance(obj, Opaque) and obj.tag == "response" and name == "json":
+            return fetch(I, st, obj.args[0], "requests")
+        if isinstance(obj, Opaque) and obj.tag == "urlopen-handle" and name in ("read",):
+            return [(st, Opaque("urlopen-bytes", obj.args))]
+        if isinstance(obj, Opaque) and obj.tag == "urlopen-bytes" and name == "decode":
+            r = fetch(I, st, obj.args[0], "urlopen")
+            return r
+        if isinstance(obj, AbsStack):
+            if name == "append":
+                s = st.fork()
+                s.ghost["scopes"] = s.ghost.get("scopes", ()) + (s.ghost["scope"],)
+                s.ghost["scope"] = sstr(a[0])
+                s.ghost["depth"] = s.ghost["depth"] + 1
+                return [(s, lift(None))]
+            if name == "pop":
+                stack = st.ghost.get("scopes", ())
+                if not stack:
+                    # popping the entry element: the list may then be empty -> IndexError possible
+                    return [(st.fork(), Raised(ExcVal("IndexError", {}, origin="pop from empty stack")))]
+                s = st.fork()
+                s.ghost["scope"] = stack[-1]
+                s.ghost["scopes"] = stack[:-1]
+                s.ghost["depth"] = s.ghost["depth"] - 1
+                return [(s, lift(None))]
+        return None
+
+    def import_hook(I, node, st):
+        names = [a.asname or a.name for a in node.names]
+        outs = []
+        for present in ((True, False) if requests_present is None else (requests_present,)):
+            s = st.fork()
+            if present:
+                for n in names:
+                    s.env[n] = Opaque("requests")
+                outs.append((s, ("next", None)))
+            else:
+                outs.append((s, ("raise", ExcVal("ImportError", {}, origin="import requests"))))
+        return outs
+
+    def with_hook(I, node, st):
+        # `with urlopen(uri) as url:` : the handle is opaque; closing it has no modelled effect
+        outs = []
+        item = node.items[0]
+        for s, v in I.eval(item.context_expr, st):
+            if isinstance(v, Raised):
+                outs.append((s, ("raise", v.exc)))
+                continue
+            s2 = s.fork()
+            if item.optional_vars is not None:
+                s2.env[item.optional_vars.id] = Opaque("urlopen-handle", v.args if isinstance(v, Opaque) else [v])
+            outs.extend(I.exec_block(node.body, s2))
+        return outs
+
+    ctx.config.update(getattr_hook=getattr_hook, subscript_hook=subscript_hook, setitem_hook=setitem_hook, in_hook=in_hook, call_hook=call_hook,
+                      builtin_hook=builtin_hook, method_hook=method_hook, import_hook=import_hook, with_hook=with_hook)
+
+    import pyvc.interp as _pi
+    return _pi
+
+
+class AbsSplit:
+    def __init__(self, u):
+        self.u = u
+
+
+class AbsStack:
+    pass
+
+
+class ResolveFragmentC(core.Contract):
+    """resolve_fragment(document, fragment): the RFC 6901 value or RefResolutionError (proved: C14)"""
+    key = "validators:RefResolver.resolve_fragment"
+
+    def apply(self, I, st, args, kwargs, fref):
+        doc, frag = args[1], args[2]
+        ft = frag.t if isinstance(frag, SStr) else sval(frag.t)
+        ok = ptr_ok(doc.t, ft)
+        s1 = st.fork()
+        add_lemma(s1, smt.isjson(ptr_value(doc.t, ft)))
+        return branch(I.ctx, s1, [(ok, SV(ptr_value(doc.t, ft))), (z3.Not(ok), Raised(ExcVal("RefResolutionError", {}, origin="resolve_fragment")))])
+
+
+ptr_ok = z3.Function("ptr_resolves", V, smt.S, smt.B)
+ptr_value = z3.Function("ptr_value", V, smt.S, V)
+
+
+def rfu_spec(st, url):
+    """specification of resolve_from_url(url) in the store state of `st`:
+       (has_doc, document, needs_fetch)"""
+    u, f = defrag_url(url), defrag_frag(url)
+    has, doc = store_lookup(st, normalize(u))
+    return u, f, has, doc
+
+
+class ResolveFromUrlC(core.Contract):
+    """resolve_from_url(url) (proved by its task): with (u, f) = urldefrag(url): the document is
+    store[u] when present (no retrieval), otherwise one resolve_remote(u) whose failure surfaces as
+    RefResolutionError; the result is resolve_fragment(document, f)."""
+    key = "validators:RefResolver.resolve_from_url"
+
+    def apply(self, I, st, args, kwargs, fref):
+        url = args[1]
+        ut = url.t if isinstance(url, SStr) else sval(url.t)
+        u, f, has, doc = rfu_spec(st, ut)
+        outs = []
+        from pyvc.interp import assume
+        # served from the store
+        s1 = assume(I.ctx, st.fork(), has)
+        if s1 is not None:
+            outs.extend(ResolveFragmentC().apply(I, s1, [args[0], SV(doc), SStr(f)], {}, None))
+        s2 = assume(I.ctx, st.fork(), z3.Not(has))
+        if s2 is not None:
+            ok, bad = s2.fork(), s2.fork()
+            for s in (ok, bad):
+                s.ghost["fetches"] = s.ghost.get("fetches", ()) + (("resolve_remote", SStr(u)),)
+            outs.append((bad, Raised(ExcVal("RefResolutionError", {}, origin="resolve_remote failed"))))
+            add_lemma(ok, smt.isjson(fetched(u)))
+            cr = I.ctx.config.get("cache_remote_term")
+            if cr is not None:
+                ok.ghost["store_writes_if"] = ok.ghost.get("store_writes_if", ()) + ((cr, u, fetched(u)),)
+            outs.extend(ResolveFragmentC().apply(I, ok, [args[0], SV(fetched(u)), SStr(f)], {}, None))
+        return outs
+
+
+def _resolver_task_common(self, cache_remote=None, requests_present=None):
+    repo = extract.Repo(self.root)
+    ctx = Ctx(repo, contracts={}, config={})
+    this = ObjVal("RefResolver", ctx.new_oid())
+    resolver_hooks(ctx, this, cache_remote, requests_present)
+    st = State()
+    st.ghost["scope"] = z3.String("scope0")
+    st.ghost["depth"] = z3.IntVal(0)
+    return repo, ctx, Interp(ctx), st, this
+
+
+def _run_resolve_remote(self, res):
+    """resolve_remote(uri): exactly one retrieval, through handlers[scheme] when the scheme has a
+    handler, else requests (http/https with requests importable) else urlopen; the store gains
+    uri -> result exactly when cache_remote; the result is returned; a failing retrieval propagates
+    and leaves the store unchanged."""
+    res["function"] = "validators:RefResolver.resolve_remote"
+    n = 0
+    for cache_remote in (True, False):
+        for requests_present in (True, False):
+            repo, ctx, I, st, this = _resolver_task_common(self, cache_remote, requests_present)
+            unit = repo.unit("validators:RefResolver.resolve_remote")
+            res["source_hash"] = unit.source_hash()
+            uri = SV(z3.Const("uri", V))
+            st.unit = unit
+            st.pc.append(kind(uri.t) == K_STR)
+            outs = I.run_unit(unit, st, [this, uri], {})
+            res["paths"] += len(outs)
+            obls = list(ctx.obligations)
+            sch = scheme_of(sval(uri.t))
+            has_h = handler_has(sch)
+            is_http = z3.Or(sch == z3.StringVal("http"), sch == z3.StringVal("https"))
+            tag = "cache_remote=%s,requests=%s" % (cache_remote, requests_present)
+            for s, ctl in outs:
+                n += 1
+                f = s.ghost.get("fetches", ())
+                w = s.ghost.get("store_writes", ())
+                one = len(f) == 1
+                via = f[0][0] if one else None
+                want_via = z3.If(has_h, z3.StringVal("handler"), z3.If(z3.And(is_http, z3.BoolVal(requests_present)), z3.StringVal("requests"), z3.StringVal("urlopen")))
+                obls.append(core.Obligation("%s/F/%s.one-fetch#%d" % (self.name, tag, n), "F", s.pc,
+                                            z3.And(z3.BoolVal(one), want_via == z3.StringVal(via or "none")),
+                                            note="exactly one retrieval, chosen by scheme: handler, else requests for http(s) when importable, else urlopen"))
+                if ctl[0] == "return":
+                    r = ctl[1]
+                    okw = (len(w) == 1 and cache_remote) or (len(w) == 0 and not cache_remote)
+                    goal = z3.And(z3.BoolVal(bool(okw)), r.t == fetched(sval(uri.t)) if isinstance(r, SV) else z3.BoolVal(False))
+                    if cache_remote and len(w) == 1:
+                        goal = z3.And(goal, w[0][0] == sval(uri.t), w[0][1] == fetched(sval(uri.t)))
+                    obls.append(core.Obligation("%s/F/%s.store#%d" % (self.name, tag, n), "F", s.pc, goal,
+                                                note="returns the retrieved document; the store gains uri -> document exactly when cache_remote"))
+                else:
+                    obls.append(core.Obligation("%s/F/%s.failure#%d" % (self.name, tag, n), "F", s.pc,
+                                                z3.BoolVal(ctl[1].cls == "FetchError" and len(w) == 0),
+                                                note="only the retrieval's own exception propagates, and nothing is stored"))
+            self.finish(res, ctx, obls)
+
+
+def _run_resolve_from_url(self, res):
+    """resolve_from_url(url): see ResolveFromUrlC"""
+    res["function"] = "validators:RefResolver.resolve_from_url"
+    repo, ctx, I, st, this = _resolver_task_common(self)
+    ctx.contracts[ResolveFragmentC.key] = ResolveFragmentC()
+    ctx.contracts["validators:RefResolver.resolve_remote"] = ResolveRemoteC()
+    unit = repo.unit("validators:RefResolver.resolve_from_url")
+    res["source_hash"] = unit.source_hash()
+    url = SV(z3.Const("url", V))
+    st.unit = unit
+    st.pc.append(kind(url.t) == K_STR)
+    outs = I.run_unit(unit, st, [this, url], {})
+    res["paths"] = len(outs)
+    obls = list(ctx.obligations)
+    u, f, has, doc = rfu_spec(st, sval(url.t))
+    n = 0
+    for s, ctl in outs:
+        n += 1
+        fetches = s.ghost.get("fetches", ())
+        served = z3.And(has, z3.BoolVal(len(fetches) == 0))
+        fetched_once = z3.And(z3.Not(has), z3.BoolVal(len(fetches) == 1 and fetches[0][0] == "resolve_remote"))
+        if len(fetches) == 1:
+            fetched_once = z3.And(fetched_once, (fetches[0][1].t if isinstance(fetches[0][1], SStr) else sval(fetches[0][1].t)) == u)
+        obls.append(core.Obligation("%s/F/frugal#%d" % (self.name, n), "F", s.pc, z3.Or(served, fetched_once),
+                                    note="a document present in the store (by normalised, defragmented URL) is never retrieved; an absent one is retrieved exactly once"))
+        if ctl[0] == "return":
+            r = ctl[1]
+            document = z3.If(has, doc, fetched(u))
+            obls.append(core.Obligation("%s/F/value#%d" % (self.name, n), "F", s.pc,
+                                        z3.And(ptr_ok(document, f), r.t == ptr_value(document, f)) if isinstance(r, SV) else z3.BoolVal(False),
+                                        note="the result is the fragment's value inside the stored / retrieved document"))
+        else:
+            obls.append(core.Obligation("%s/F/error#%d" % (self.name, n), "F", s.pc, z3.BoolVal(ctl[1].cls == "RefResolutionError"),
+                                        note="any retrieval failure and any unresolvable pointer surface as RefResolutionError (got %s)" % ctl[1].cls))
+    self.finish(res, ctx, obls)
+
+
+class ResolveRemoteC(core.Contract):
+    """resolve_remote(uri) (proved by its task): one retrieval; returns fetched(uri) or raises"""
+    key = "validators:RefResolver.resolve_remote"
+
+    def apply(self, I, st, args, kwargs, fref):
+        uri = args[1]
+        ok, bad = st.fork(), st.fork()
+        for s in (ok, bad):
+            s.ghost["fetches"] = s.ghost.get("fetches", ()) + (("resolve_remote", uri),)
+        ut = uri.t if isinstance(uri, SStr) else sval(uri.t)
+        add_lemma(ok, smt.isjson(fetched(ut)))
+        return [(ok, SV(fetched(ut))), (bad, Raised(ExcVal("FetchError", {}, origin="resolve_remote")))]
+
+
+def _run_resolve(self, res):
+    """resolve(ref): url = urljoin(resolution_scope, ref); returns (url, resolve_from_url(url)) - through
+    whatever caches were supplied (cache contract: a cache returns what the wrapped function returns);
+    the scope stack is untouched; only RefResolutionError escapes."""
+    res["function"] = "validators:RefResolver.resolve"
+    repo, ctx, I, st, this = _resolver_task_common(self)
+    ctx.contracts[ResolveFromUrlC.key] = ResolveFromUrlC()
+    ctx.config["props_by_contract"] = False
+    unit = repo.unit("validators:RefResolver.resolve")
+    res["source_hash"] = unit.source_hash() + repo.unit("validators:RefResolver.resolution_scope").source_hash()
+    ref = SV(z3.Const("ref", V))
+    st.unit = unit
+    st.pc.append(kind(ref.t) == K_STR)
+    B = st.ghost["scope"]
+    outs = I.run_unit(unit, st, [this, ref], {})
+    res["paths"] = len(outs)
+    obls = list(ctx.obligations)
+    url = urljoin_f(B, sval(ref.t))
+    u, f, has, doc = rfu_spec(st, url)
+    n = 0
+    for s, ctl in outs:
+        n += 1
+        obls.append(core.Obligation("%s/X/stack#%d" % (self.name, n), "X", s.pc, z3.And(z3.simplify(s.ghost["depth"]) == 0, s.ghost["scope"] == B),
+                                    note="resolve leaves the scope stack untouched (also when it raises)"))
+        if ctl[0] == "return":
+            r = ctl[1]
+            ok = isinstance(r, PyTuple) and len(r.items) == 2 and isinstance(r.items[0], SStr) and isinstance(r.items[1], SV)
+            document = z3.If(has, doc, fetched(u))
+            goal = z3.And(r.items[0].t == url, ptr_ok(document, f), r.items[1].t == ptr_value(document, f)) if ok else z3.BoolVal(False)
+            obls.append(core.Obligation("%s/F/value#%d" % (self.name, n), "F", s.pc, goal,
+                                        note="(url, document) with url = urljoin(top of the scope stack, ref) and document the designated value"))
+        else:
+            obls.append(core.Obligation("%s/F/error#%d" % (self.name, n), "F", s.pc, z3.BoolVal(ctl[1].cls == "RefResolutionError"),
+                                        note="only RefResolutionError escapes resolve (got %s)" % ctl[1].cls))
+    self.finish(res, ctx, obls)
+
+
+def _run_scopes(self, res):
+    """push_scope / pop_scope / resolution_scope / base_uri over the symbolic stack"""
+    res["function"] = "validators:RefResolver.{push_scope,pop_scope,resolution_scope,base_uri}"
+    hashes = ""
+    for meth in ("push_scope", "pop_scope", "resolution_scope", "base_uri"):
+        repo, ctx, I, st, this = _resolver_task_common(self)
+        unit = repo.unit("validators:RefResolver.%s" % meth)
+        hashes += unit.source_hash()
+        st.unit = unit
+        # one element below the current top, so that pop is defined
+        st.ghost["scopes"] = (z3.String("scope_below"),)
+        B = st.ghost["scope"]
+        arg = SV(z3.Const("scope_arg", V))
+        st.pc.append(kind(arg.t) == K_STR)
+        args = [this] + ([arg] if meth == "push_scope" else [])
+        outs = I.run_unit(unit, st, args, {})
+        res["paths"] += len(outs)
+        obls = list(ctx.obligations)
+        n = 0
+        for s, ctl in outs:
+            n += 1
+            nm = "%s/F/%s#%d" % (self.name, meth, n)
+            if ctl[0] == "raise":
+                obls.append(core.Obligation(nm, "S", s.pc, False, note="%s raises %s" % (meth, ctl[1].cls)))
+                continue
+            if meth == "push_scope":
+                goal = z3.And(s.ghost["scope"] == urljoin_f(B, sval(arg.t)), z3.simplify(s.ghost["depth"]) == 1,
+                              z3.BoolVal(len(s.ghost.get("scopes", ())) == 2 and s.ghost["scopes"][-1].eq(B)))
+                note = "push_scope appends urljoin(current scope, scope)"
+            elif meth == "pop_scope":
+                goal = z3.And(s.ghost["scope"] == z3.String("scope_below"), z3.simplify(s.ghost["depth"]) == -1)
+                note = "pop_scope removes the top element"
+            elif meth == "resolution_scope":
+                r = ctl[1]
+                goal = (r.t == B) if isinstance(r, SStr) else z3.BoolVal(False)
+                note = "resolution_scope is the top of the stack"
+            else:
+                r = ctl[1]
+                goal = (r.t == defrag_url(B)) if isinstance(r, SStr) else z3.BoolVal(False)
+                note = "base_uri is the top of the stack without its fragment"
+            obls.append(core.Obligation(nm, "F", s.pc, goal, note=note))
+        self.finish(res, ctx, obls)
+    res["source_hash"] = hashes
+
+
+ResolverTask._run_resolve_remote = _run_resolve_remote
+ResolverTask._run_resolve_from_url = _run_resolve_from_url
+ResolverTask._run_resolve = _run_resolve
+ResolverTask._run_scopes = _run_scopes
+
+
+# ---- the `$ref` keyword function (C02) ---------------------------------------------------------------
+designated = z3.Function("designated", smt.S, V)      # the value a URL designates in the resolver's store (after retrieval)
+ref_fails = z3.Function("ref_unresolvable", smt.S, smt.B)
+
+
+class ResolveC(core.Contract):
+    """resolve(ref) (proved by the resolve task): (url, designated(url)) with url = urljoin(scope, ref),
+    or RefResolutionError; the scope stack is untouched.
+    ASSUMED here (precondition of C02, DESIGN.md F13): a designated value is itself a schema of the draft."""
+    key = "validators:RefResolver.resolve"
+
+    def apply(self, I, st, args, kwargs, fref):
+        ref = args[1]
+        B = st.ghost["scope"]
+        url = urljoin_f(B, sval(ref.t))
+        d = I.ctx.config["vm"].d
+        ok = st.fork()
+        add_lemma(ok, z3.And(core.WF[d](designated(url)), smt.isjson(designated(url))))
+        return branch(I.ctx, ok, [(z3.Not(ref_fails(url)), PyTuple([SStr(url), SV(designated(url))])),
+                                  (ref_fails(url), Raised(ExcVal("RefResolutionError", {}, origin="resolve")))])
+
+
+def join_idempotent_axiom():
+    """ASSUMED (RFC 3986 section 5.2): the result of reference resolution is absolute, and an absolute URI resolves to itself"""
+    b, r = z3.Strings("b r")
+    return z3.ForAll([b, r], urljoin_f(b, urljoin_f(b, r)) == urljoin_f(b, r), patterns=[urljoin_f(b, urljoin_f(b, r))])
+
+
+@smt.register_axioms
+def _join_ax(names):
+    return [join_idempotent_axiom()] if "urljoin" in names else []
+
+
+def ref_keyword_task_run(self, res):
+    """_validators.ref: errors of the designated schema under the designated scope, nothing else:
+    result == descend(instance, designated(url)) evaluated with the resolution scope set to url;
+    empty(result) <=> Vp(url, designated(url), instance); siblings are not even looked at (no read of `schema`)."""
+    from contracts.tasks_core import CoreTask, PushScope
+    from contracts import structure
+    from pyvc import seqmatch, tables as tables_mod, frames
+    for d in (3, 4, 6, 7):
+        ct = CoreTask(self.root, d, "ref_x", self.timeout_ms)
+        repo, ctx, st, vm, validator, I = ct.setup()
+        ctx.contracts["validators:RefResolver.resolve"] = ResolveC()
+        ctx.config["hasattr_hook"] = lambda I_, st_, obj, name: (isinstance(obj, ObjVal) and obj.cls == "RefResolver" and
+                                                             ("validators:RefResolver.%s" % name) in I_.repo.units) or None
+        key = tables_mod.draft_tables(repo)[d].keywords["$ref"]
+        unit = repo.unit(key)
+        res["function"], res["source_hash"] = key, unit.source_hash()
+        instance, schema, ref = SV(z3.Const("instance", V)), SV(z3.Const("schema", V)), SV(z3.Const("ref", V))
+        st.pc.extend([smt.isjson(instance.t), smt.isjson(schema.t), kind(ref.t) == K_STR])
+        st.unit = unit
+        B = st.ghost["scope"]
+        outs = I.run_unit(unit, st, [validator, ref, instance, schema], {})
+        res["paths"] += len(outs)
+        obls = list(ctx.obligations)
+        url = urljoin_f(B, sval(ref.t))
+        n = 0
+        for s, ctl in outs:
+            n += 1
+            nm = "%s@draft%d" % (self.name, d)
+            if ctl[0] == "raise":
+                obls.append(core.Obligation("%s/F/error#%d" % (nm, n), "F", s.pc, z3.And(z3.BoolVal(ctl[1].cls == "RefResolutionError"), ref_fails(url)),
+                                            note="only RefResolutionError, and only when the reference cannot be resolved"))
+                continue
+            out = cat(*s.out)
+            expected = structure.D(url, SV(designated(url)), instance, None, None)
+            try:
+                facts = seqmatch.match(out, expected, s.pc)
+                obls.append(core.Obligation("%s/F/transparent#%d" % (nm, n), "F", s.pc, z3.And(facts) if facts else z3.BoolVal(True),
+                                            note="result == errors of the designated schema on the same instance, evaluated under the designated URL as scope, with nothing added to any path"))
+            except seqmatch.Mismatch as e:
+                res["obligations"].append({"name": "%s/F/transparent#%d" % (nm, n), "kind": "F", "status": "failed", "solver": "seqmatch", "time_s": 0.0,
+                                           "note": "result structure differs: %s" % e, "reason": str(e)})
+            obls.append(core.Obligation("%s/F/verdict#%d" % (nm, n), "F", s.pc, seq_empty(out) == core.Vp(url, designated(url), instance.t),
+                                        note="empty(result) <=> the designated schema accepts the instance (definition of Vref)"))
+            obls.append(core.Obligation("%s/X/scope#%d" % (nm, n), "X", s.pc, z3.And(s.ghost["scope"] == B, z3.simplify(s.ghost["depth"]) == 0),
+                                        note="scope restored"))
+        keys, problems, _ = frames.schema_reads(repo, key, frames.param_names(unit.node)[3])
+        res["obligations"].append({"name": "%s@draft%d/R/ignores-siblings" % (self.name, d), "kind": "R", "status": "discharged" if not keys and not problems else "failed",
+                                   "solver": "frames", "time_s": 0.0, "note": "the $ref function reads nothing of the schema object it stands in (%s %s)" % (sorted(keys), problems)})
+        self.finish(res, ctx, obls)
+
+
+def init_obligations(repo):
+    """RefResolver.__init__ / from_schema / URIDict: what the store contains and how keys are normalised (AST)"""
+    import ast as _ast
+    recs = []
+
+    def rec(name, ok, note):
+        recs.append({"name": name, "kind": "T", "status": "discharged" if ok else "failed", "solver": "tables", "note": note})
+    init = repo.units["validators:RefResolver.__init__"].node
+    stmts = [_ast.unparse(s) for s in init.body if not (isinstance(s, _ast.Expr) and isinstance(s.value, _ast.Constant))]
+    def idx(prefix):
+        for i, s in enumerate(stmts):
+            if s.startswith(prefix):
+                return i
+        return -1
+    a = idx("self.store = _utils.URIDict(((id, validator.META_SCHEMA) for id, validator in meta_schemas.items()))")
+    b = idx("self.store.update(store)")
+    c = idx("self.store[base_uri] = referrer")
+    rec("validators:RefResolver.__init__/T/store-seeding", 0 <= a < b < c,
+        "the store is seeded with every registered metaschema, then the caller's store (through the normalising update), then base_uri -> referrer (last, so it wins): positions %s" % ((a, b, c),))
+    rec("validators:RefResolver.__init__/T/stack", "self._scopes_stack = [base_uri]" in stmts, "the scope stack starts as [base_uri]")
+    rec("validators:RefResolver.__init__/T/handlers", "self.handlers = dict(handlers)" in stmts, "handlers are copied")
+    fs = _ast.unparse(repo.units["validators:RefResolver.from_schema"].node)
+    rec("validators:RefResolver.from_schema/T/base", "return cls(*args, base_uri=id_of(schema), referrer=schema, **kwargs)" in fs or
+        "return cls(base_uri=id_of(schema), referrer=schema, *args, **kwargs)" in fs, "from_schema uses id_of(schema) as base URI and the schema as referrer")
+    for m, want in (("__getitem__", "return self.store[self.normalize(uri)]"), ("__setitem__", "self.store[self.normalize(uri)] = value"),
+                    ("__delitem__", "del self.store[self.normalize(uri)]"), ("normalize", "return urlsplit(uri).geturl()")):
+        u = _ast.unparse(repo.units["_utils:URIDict.%s" % m].node)
+        rec("_utils:URIDict.%s/T/normalises" % m, want in u, "URIDict.%s goes through normalize (%s)" % (m, want))
+    cls = [n for n in _ast.walk(repo.trees["_utils"]) if isinstance(n, _ast.ClassDef) and n.name == "URIDict"]
+    rec("_utils:URIDict/T/mutable-mapping", bool(cls) and [_ast.unparse(b) for b in cls[0].bases] == ["MutableMapping"] and
+        not any(isinstance(s, _ast.FunctionDef) and s.name in ("update", "setdefault", "get", "__contains__") for s in cls[0].body),
+        "URIDict inherits update/get/setdefault/__contains__ from MutableMapping, which are defined through the normalising __getitem__/__setitem__ (assumed contract of the ABC)")
+    return recs
+
+
+ResolverTask._run_ref_keyword = ref_keyword_task_run
